@@ -27,8 +27,8 @@ type CheckSpec struct {
 
 var Checks = map[string]CheckSpec{
 	"C01": {Property: "C01", Level: "exploration", Profiles: []string{"general", "book", "fixed", "clock", "general", "extreme"}, QuickS: 75, ThoroughS: 600},
-	"C02": {Property: "C02", Level: "exploration", Profiles: []string{"general", "clock", "book", "fixed", "vesting", "extreme"}, QuickS: 75, ThoroughS: 600},
-	"C03": {Property: "C03", Level: "exploration", Profiles: []string{"book", "book", "rounds"}, QuickS: 75, ThoroughS: 600},
+	"C02": {Property: "C02", Level: "exploration", Profiles: []string{"general", "clock", "book", "fixed", "vesting", "extreme", "crowd"}, QuickS: 75, ThoroughS: 600},
+	"C03": {Property: "C03", Level: "exploration", Profiles: []string{"book", "book", "rounds", "book", "crowd"}, QuickS: 75, ThoroughS: 600},
 	"C04": {Property: "C04", Level: "exploration", Profiles: []string{"book", "fixed", "book", "general"}, QuickS: 75, ThoroughS: 600},
 	"C05": {Property: "C05", Level: "exploration", Profiles: []string{"book", "fixed", "rounds", "general"}, QuickS: 75, ThoroughS: 600},
 	"C06": {Property: "C06", Level: "exploration", Profiles: []string{"fixed", "fixed", "general"}, Opts: ExecOpts{Lin: true}, QuickS: 75, ThoroughS: 600},
